@@ -32,7 +32,7 @@ def _eng_nontrivial(line, verdict):
 
 _ENG_RULE = ("eng: structured rule sets (1-6 rules + markers, chains up to 4 links, keyed/regex-keyed/whole/count targets with "
              "string and regex exclusions over ARGS*/REQUEST_HEADERS*/TX/MATCHED_* (27 key expressions incl. upper case, "
-             "classes, \\D \\W \\b, (?i), alternation, counted repetition), 13 operators with literal and macro arguments, "
+             "classes, \\D \\W \\b, (?i), alternation, counted repetition), 15 operators (incl. @rx over the regex model and @ipMatch) with literal and macro arguments, "
              "transformation lists, multiMatch, setvar/ctl actions, all disruptive actions, skip/skipAfter, severity, tags) "
              "rendered to SecLang for the real WAF and sent as JSON to the Lean model; requests with duplicate, mixed-case, "
              "empty and binary names/values; API call sequences in and out of order; three engine modes. Compared: every "
@@ -43,7 +43,7 @@ _ENG_MODELLED = ("modelled: RuleGroup.Eval, Rule.doEvaluate, GetField and the Ma
                  "deny/drop/redirect/block/pass/allow/skip/skipAfter; regex keys (selection, exclusion, ctl) through the exact "
                  "regex model of lean/Coraza/Model/Regex.lean (expression text parsed in Lean, matcher proved against its "
                  "declarative semantics); configuration-time SecRuleRemoveById/ByTag, SecRuleUpdateTargetById/ByTag, "
-                 "SecRuleUpdateActionById as rewrites of the rule list (buildRules). Not modelled: @rx inside the engine, "
+                 "SecRuleUpdateActionById as rewrites of the rule list (buildRules). Not modelled: "
                  "XML/JSON selectors, multiphase build, body processors (C03/C10), audit logging (C19); regex keys outside the "
                  "fragment or over non-ASCII names are judged by the monitor only.")
 _ENG_ASSUME = ["Go map iteration order is arbitrary: match data are compared as multisets and the generator only emits "
